@@ -72,7 +72,7 @@ CHECKS = {
          "DESIGN.md section 4 C03"),
 
  "C04": ("runtime monitoring: base run vs variant run (one suppression directive inserted) of every linter command and of an unrelated witness command, for every cell of the matrix linter x language x directive form x rule-name spelling x placement; a scope model written from the property text predicts the variant",
-         "Held on the executions observed: 19 commands (lazy-ignores excluded as a subject), py/ts/rs files, same-line / next-line / block / file-level (lines 1,5,10 in scope, 11,40 out of scope) / .thailintignore / config ignore / per-linter ignore (exact path in the matrix; every pattern form of docs/configuration.md - exact, **/name, dir/**, **/dir/**, name_*.ext, substring, nested tests/** - for the 16 linters that document the option), spellings full id / prefix / prefix.* / alias / upper case / list / bare, negative controls (other rule, placed away); thorough tier enumerates the whole matrix; evidence counts cells ok/fail. Round-6 additions: block markers that repeat the rule name or use brackets, an ignore-next-line comment at the end of the finding's own line (each with other-rule controls).",
+         "Held on the executions observed: 19 commands (lazy-ignores excluded as a subject), py/ts/rs files, same-line / next-line / block / file-level (lines 1,5,10 in scope, 11,40 out of scope) / .thailintignore / config ignore / per-linter ignore (exact path in the matrix; every pattern form of docs/configuration.md - exact, **/name, dir/**, **/dir/**, name_*.ext, substring, nested tests/** - for the 16 linters that document the option), spellings full id / prefix / prefix.* / alias / upper case / list / bare, negative controls (other rule, placed away); thorough tier enumerates the whole matrix; evidence counts cells ok/fail. Round-6 additions: block markers that repeat the rule name or use brackets, an ignore-next-line comment at the end of the finding's own line (each with other-rule controls; the full and the bare spelling are drawn for every next-line / block cell on the quick tier too).",
          "Trusted: the scope model and the rule-name matcher (vlib/props/c04.py); line numbers inside messages are masked; per-linter ignore is judged only for linters whose documentation lists the option; file-header/file-placement only with forms that do not alter their subject.",
          "DESIGN.md section 4 C04"),
  "C05": ("runtime monitoring: boundary trace of linter commands on a staircase probe project (constructs straddling every threshold value) under the same setting written through .thailint.yaml / .thailint.json / pyproject.toml / --config (command and group level) with hyphen or underscore section names; relational oracles (carrier equivalence, enabled:false silence, effect + monotonicity along sweeps, precedence decoding, top-level ignore, exit 2 for invalid values and unparsable files)",
@@ -96,7 +96,7 @@ CHECKS = {
          "DESIGN.md section 4 C13"),
 
  "C20": ("runtime monitoring: command histories with file bytes recorded before/after every command, exit codes and stdout; offline checkers against (a) a key-path state model of the user's .thailint.yaml for init-config merges (plus threshold decoding on the staircase probe and byte-idempotence), (b) preset files accepted by every linter command, (c) a dict model with the documented value conversion for config set/get/reset incl. independent YAML/JSON reload",
-         "Held on the executions observed: generated existing configs (section subsets, hyphen/underscore, block/flow style, comments, banner look-alikes, CRLF, no final newline, document markers) x three init-config runs with presets; four preset files x 20 commands; set/get/reset histories with valid, invalid and YAML-special values over cfg.yaml and cfg.json; evidence counts merge runs, in-effect checks, accepted/rejected sets and get checks. Round-6 additions: interactive init-config steps (answer on stdin, real console script).",
+         "Held on the executions observed: generated existing configs (section subsets, hyphen/underscore, block/flow style, comments, banner look-alikes, CRLF, no final newline, document markers) x three init-config runs with presets; four preset files x 20 commands; set/get/reset histories with valid, invalid and YAML-special values over cfg.yaml and cfg.json; evidence counts merge runs, in-effect checks, accepted/rejected sets and get checks. Round-6 additions: interactive init-config steps (answer on stdin, real console script). Final-sweep additions: an existing .thailint.json named with --output (judged by the JSON parser the tool uses for it), preset files written under both auto-discovered names, custom-key text holding NEL / LS / PS.",
          "Trusted: yaml.safe_load / json.loads as independent parsers; Python literal syntax as the documented int/float conversion; validated keys as in src/config.py.",
          "DESIGN.md section 4 C20"),
 
